@@ -1,5 +1,7 @@
 """C09 — feedback filter handles every IMU/measurement interleaving exactly once."""
 from . import env  # noqa: F401
+import json
+import os
 from . import fworld as FW
 from . import sched
 from .shrink import shrink_filter_scenario
@@ -11,7 +13,19 @@ TIERS = {'quick': dict(runs=1600, budget_s=150, chunk=8, selftest=4),
          'thorough': dict(runs=60000, budget_s=1500, chunk=16, selftest=12)}
 
 
+F9_FILE = os.path.join(os.path.dirname(os.path.dirname(os.path.abspath(__file__))),
+                       'replays', 'findings', 'F9-C09-fixes-inside-long-gap-diverge.json')
+
+
 def generate(run_seed, tier, index):
+    if index == 5 and os.path.exists(F9_FILE):
+        # directed run for known finding F9: the recorded scenario itself (the divergence
+        # needs 2-D mode, a lever arm, a pitching vehicle and nine accurate fixes inside one
+        # 2.2 s IMU gap all at once - too fragile for a random template)
+        sc = json.load(open(F9_FILE))['scenario']
+        sc['knobs']['rerun'] = None
+        sc['template'] = 'recorded_F9'
+        return sc
     return FW.generate(run_seed, FILTER, 'sched')
 
 
